@@ -36,6 +36,9 @@ type Action struct {
 	Shard     int // executing shard when the recipient is the system account and the caller is on the metachain
 	Msg       int // index into World.Inflight for deliveries
 	Label     string
+	// ReturnAfterError sets VMInput.ReturnCallAfterError on a call action. An honest node sets the
+	// flag only on return transfers (A6); safety profiles use it as an adversarial input flag.
+	ReturnAfterError bool
 }
 
 // Leg is one execution of one built-in function (or one bookkeeping step) inside a Step.
@@ -187,6 +190,8 @@ func (e *Env) stepCall(w *World, act Action) (*World, []*Leg) {
 			CallType:    act.CallType,
 			GasProvided: act.Gas,
 			GasLocked:   act.GasLocked,
+
+			ReturnCallAfterError: act.ReturnAfterError,
 		},
 		RecipientAddr: append([]byte{}, act.Recipient...),
 		Function:      act.Func,
